@@ -606,7 +606,11 @@ func c06ExpiryVsSet(r *Run, variant int) {
 // REVERSE order - what happens when the first caller is descheduled between its map update and
 // its event send. The sum of all true costs never exceeds MaxSize at any moment of any real-time
 // order of the two calls, so nothing may be evicted and every other key must stay readable.
-func c06ReorderedCostDeltas(r *Run, variant int) {
+func c06ReorderedCostDeltas(r *Run, variant int) { reorderedCostDeltas(r, variant, "C06") }
+
+// reorderedCostDeltas also serves C16, which judges only the public size views after the script: Len, Range and
+// EstimatedSize must agree with each other about what is resident and what it costs.
+func reorderedCostDeltas(r *Run, variant int, prop string) {
 	rng := r.Rng(int64(6600 + variant))
 	M := int64([]int{100, 200, 1000}[variant%3])
 	// two shapes: the key's cost goes up and down again (1 -> big -> 1: the reversed deltas take its weight below
@@ -674,6 +678,25 @@ func c06ReorderedCostDeltas(r *Run, variant int) {
 		if _, ok := c.Get(k); !ok {
 			missing++
 		}
+	}
+	if prop == "C16" {
+		visits, sum := 0, int64(0)
+		c.Range(func(k int, v int64) bool {
+			visits++
+			if k == key {
+				sum += cB
+			} else {
+				sum++
+			}
+			return true
+		})
+		if l, est := c.Len(), c.EstimatedSize(); l != visits || int64(est) != sum {
+			r.Violate("estimatedsize!=sum-of-costs/cost-deltas-applied-in-reverse-order", fmt.Sprintf("after two Sets of one key whose cost deltas reached the policy in reverse order, and Wait: Len() = %d, Range visited %d entries costing %d in total, EstimatedSize() = %d; script: %v", l, visits, sum, est, script), wit)
+		}
+		r.Eval(1)
+		r.Count("reordered_cost_delta_scenarios", 1)
+		r.Distinct(fmt.Sprintf("reordered-cost-deltas/M%d/down-up=%v", M, downUp))
+		return
 	}
 	if v, ok := c.Get(key); !ok || v != 5002 {
 		missing++
